@@ -2,3 +2,63 @@
 #[allow(unused_imports)]
 use super::*;
 include!("/verif/replay/in_crate/common.rs");
+
+pub fn rand_slip(rng: &mut Rng) -> Slip {
+    let mut s = Slip::default();
+    s.public_key = rng.arr::<33>();
+    s.amount = rng.edge_u64();
+    s.block_id = rng.edge_u64();
+    s.tx_ordinal = rng.edge_u64();
+    s.slip_index = rng.next() as u8;
+    s.slip_type = SlipType::from_u8((rng.below(10)) as u8).unwrap();
+    s
+}
+
+/// twins of the slip unit's contracts on the real functions
+#[test]
+fn codec_contract() {
+    let mut rng = Rng::from_env();
+    for _ in 0..3000 {
+        let mut s = rand_slip(&mut rng);
+        let e = s.serialize_for_net();
+        let mut expect = s.public_key.to_vec();
+        expect.extend(s.amount.to_be_bytes()); expect.extend(s.block_id.to_be_bytes()); expect.extend(s.tx_ordinal.to_be_bytes());
+        expect.push(s.slip_index); expect.push(s.slip_type as u8);
+        if e != expect || e.len() != 59 { witness(format!("serialize_for_net layout differs for {:?}", s)); }
+        let d = Slip::deserialize_from_net(&e).unwrap_or_else(|_| witness("valid slip rejected".to_string()));
+        if d.public_key != s.public_key || d.amount != s.amount || d.block_id != s.block_id || d.tx_ordinal != s.tx_ordinal || d.slip_index != s.slip_index || d.slip_type != s.slip_type { witness("slip does not round trip".to_string()); }
+        let k = s.get_utxoset_key();
+        let mut ke = s.public_key.to_vec();
+        ke.extend(s.block_id.to_be_bytes()); ke.extend(s.tx_ordinal.to_be_bytes()); ke.push(s.slip_index); ke.extend(s.amount.to_be_bytes()); ke.push(s.slip_type as u8);
+        if k.to_vec() != ke { witness("utxoset key layout differs".to_string()); }
+        s.generate_utxoset_key();
+        let p = Slip::parse_slip_from_utxokey(&k).unwrap_or_else(|_| witness("valid key rejected".to_string()));
+        if p.get_utxoset_key() != k { witness("parse_slip_from_utxokey does not invert get_utxoset_key".to_string()); }
+        let n = rng.below(70) as usize;
+        let junk = rng.bytes(n);
+        if n != 59 && Slip::deserialize_from_net(&junk).is_ok() { witness(format!("slip of {} bytes accepted", n)); }
+    }
+}
+
+/// twins: validate / on_chain_reorganization against the Map view
+#[test]
+fn utxo_contract() {
+    let mut rng = Rng::from_env();
+    for _ in 0..3000 {
+        let mut utxo: UtxoSet = Default::default();
+        let mut s = rand_slip(&mut rng);
+        if rng.below(3) == 0 { s.amount = 0; }
+        s.generate_utxoset_key();
+        let other = { let mut o = rand_slip(&mut rng); o.amount = 5; o.generate_utxoset_key(); o };
+        utxo.insert(other.utxoset_key, true);
+        match rng.below(3) { 0 => {}, 1 => { utxo.insert(s.utxoset_key, true); }, _ => { utxo.insert(s.utxoset_key, false); } }
+        let expect_valid = s.amount == 0 || utxo.get(&s.utxoset_key) == Some(&true);
+        if s.validate(&utxo) != expect_valid { witness(format!("Slip::validate gave {} for amount {} entry {:?}", !expect_valid, s.amount, utxo.get(&s.utxoset_key))); }
+        let before = utxo.clone();
+        let spend = rng.below(2) == 0;
+        s.on_chain_reorganization(&mut utxo, spend);
+        let mut expect = before.clone();
+        if s.amount > 0 { if spend { expect.insert(s.utxoset_key, true); } else { expect.remove(&s.utxoset_key); } }
+        if utxo != expect { witness(format!("on_chain_reorganization(spendable={}) delta wrong for amount {}", spend, s.amount)); }
+    }
+}
